@@ -1004,6 +1004,7 @@ pub fn check_stress(sc: &StressCase, st: &mut Stats) -> CheckResult {
                     args: vec!["--data-dir".into(), dir.path().to_string_lossy().into_owned(), "--listen".into(), format!("127.0.0.1:{port}"), "--snapshot-versions".into(), "3".into()],
                     env: vec![],
                     connect: vec![format!("127.0.0.1:{port}").parse().unwrap()],
+                    cwd: None,
                 };
                 if let Ok(p) = crate::props::binary::spawn(&bin, &launch) {
                     started = Some(p);
